@@ -124,7 +124,7 @@ class EngineBase:
         out = []
         for j, c in enumerate(lst):
             text, tags = clause(c)
-            if tags is None or self.pid is None or self.pid in tags:
+            if tags is None or self.pid is None or self.pid in tags or (tags & getattr(self, 'pid_also', set())):
                 out.append((clause_label(c, j), text, tags))
         return out
 
